@@ -444,8 +444,6 @@ func c11runDest(run *vlab.Run, c c11destCase) {
 				default:
 					if r.Err == nil {
 						report("dest:no-error", "probe to %s has neither a cache entry nor a gateway MAC but was passed on with destination MAC %v instead of an error", oracle.IPString(oracle.U32ToIP(a)), r.DstMAC)
-					} else if !strings.Contains(r.Err.Error(), oracle.IPString(oracle.U32ToIP(a))) {
-						report("dest:error-text", "error for %s does not name the address: %v", oracle.IPString(oracle.U32ToIP(a)), r.Err)
 					}
 					atomic.AddInt64(&nErr, 1)
 				}
